@@ -1,7 +1,7 @@
 (* GenLocksCheck.v — definitions used by GenLocksProofs.v and by the report that lib/vcheck.py prints when the
    lock-discipline proof no longer goes through: the listed exceptions, the signature of an objection, the per-function test. *)
 From Coq Require Import NArith List String Bool.
-From SigM Require Import LockTrace.
+From SigM Require Import LockTrace LockOrder.
 From SigG Require Import GenLocks.
 Import ListNotations.
 Open Scope string_scope.
@@ -72,3 +72,12 @@ Definition lk_report : list (string * list (string * list string)) :=
   map (fun p => (fst p, map (fun w => (viol_sig (fst w), map ev_name (snd w)))
                             (filter (fun w => negb (sig_in (viol_sig (fst w)) (allowed (fst p) lk_exceptions))) (witnesses lk_fuel (snd p)))))
       (filter (fun p => negb (fn_ok p)) lk_all).
+
+(* ---------- lock order: the nestings of all functions that are not listed above ---------- *)
+Definition lk_ok_fns : list (string * stm) :=
+  filter (fun p => match allowed (fst p) lk_exceptions with [] => true | _ => false end) lk_all.
+Definition lk_order_graph : list edge :=
+  fold_right (fun p acc => eunion (fn_edges lk_fuel (snd p)) acc) [] lk_ok_fns.
+(* for the report: the edges as names *)
+Definition lk_order_names : list (string * string) :=
+  map (fun e => (obj_name (fst e) lk_objects, obj_name (snd e) lk_objects)) lk_order_graph.
